@@ -442,7 +442,7 @@ def shrink_line(line, proj, budget=120):
 def write_replay(ctx, v, extra=None):
     os.makedirs(os.path.join(ROOT, "replays"), exist_ok=True)
     body = {"property": ctx.pid, "tier": ctx.tier, "seed": ctx.seed, "kind": v["kind"]}
-    for k in ("op", "gen", "proj", "model", "pyemv", "predicate", "detail", "history", "theorem", "note", "shared_objects", "rewritten_buffers"):
+    for k in ("op", "gen", "proj", "model", "pyemv", "predicate", "detail", "history", "theorem", "note", "shared_objects", "rewritten_buffers", "interleave"):
         if k in v and v[k] is not None:
             body[k] = v[k]
     if extra:
@@ -460,6 +460,11 @@ def do_replay(pid, path):
     import pyexec
     r = json.load(open(path))
     print(f"replay of {path}: property {r.get('property')} kind {r.get('kind')}")
+    if r.get("kind") == "interleave" and r.get("interleave"):
+        import interleave
+        bad = interleave.replay(r["interleave"], PROJ)
+        print("reproduced" if bad else "not reproduced on the current tree")
+        return 1 if bad else 0
     lines = r.get("history") or ([r["op"]] if r.get("kind") == "disagreement" else [])
     if r.get("kind") == "disagreement" and lines:
         proj = r.get("proj", "full")
@@ -508,6 +513,7 @@ def shared_object_session(ctx):
             continue
         if PROJ[proj](g) == PROJ[proj](want):           # the line alone reproduces the case (no custom call)
             keep.append((line, proj, want))
+    ctx.keep = keep
     n = 0
     with pyexec.shared_objects() as sh:
         for i, (line, proj, want) in enumerate(keep):
@@ -569,6 +575,17 @@ def shared_object_session(ctx):
     ctx.relational["buffer-view arguments: same answer or TypeError"] += m
     ctx.evaluations += m
     ctx.extra["buffer_view_session"] = {"calls": m, "refused_with_TypeError": refused}
+
+
+def interleave_session(ctx):
+    """preemption at line boundaries by a complete call in a second thread, and calls cut short by an exception at a
+    line, over the run's own reproducible cases (harness/interleave.py)"""
+    import interleave
+    keep = getattr(ctx, "keep", None)
+    if not keep:
+        return
+    budget = float(os.environ.get("VERIF_INTERLEAVE_S", "0") or 0) or (60.0 if ctx.thorough else 20.0 if getattr(ctx, "boost", False) else 5.0)
+    interleave.session(ctx, keep, PROJ, budget, 40 if ctx.thorough else 14)
 
 
 INTERPRETER_MODES = [["-O"], ["-OO"], ["-bb"], ["byteorder=big"], ["-X", "dev", "-W", "default"], ["-I"], ["-X", "utf8=0"]]
@@ -746,15 +763,16 @@ def main():
             try:
                 t_a = time.time(); fn(ctx)
                 t_b = time.time(); shared_object_session(ctx)
+                t_i = time.time(); interleave_session(ctx)
                 t_c = time.time(); interpreter_modes(ctx)
-                ctx.extra["phase_s"] = {"property_cases": round(t_b - t_a, 1), "shared_object_session": round(t_c - t_b, 1),
-                                        "interpreter_modes": round(time.time() - t_c, 1)}
+                ctx.extra["phase_s"] = {"property_cases": round(t_b - t_a, 1), "shared_object_session": round(t_i - t_b, 1),
+                                        "interleave_session": round(t_c - t_i, 1), "interpreter_modes": round(time.time() - t_c, 1)}
                 if proof_problems and not ctx.violations and tier == "quick":
                     # a proof obligation or the translation no longer checks and the quick search found no failing
                     # input: spend the thorough tier's case counts, under another seed, before giving up
                     ctx2 = Ctx(pid, tier, a.seed + 7919); ctx2.boost = True
                     t2 = time.time()
-                    fn(ctx2); shared_object_session(ctx2); interpreter_modes(ctx2)
+                    fn(ctx2); shared_object_session(ctx2); interleave_session(ctx2); interpreter_modes(ctx2)
                     ctx.violations += ctx2.violations
                     ctx.evaluations += ctx2.evaluations
                     ctx.distinct |= ctx2.distinct
